@@ -22,6 +22,17 @@ from spec_classes.utils.mutation import (
 from .base import MethodDescriptor
 
 
+def _requires_argument(function: Callable, name: str) -> bool:
+    """
+    Whether `function` has a parameter `name` without a default value.
+    """
+    try:
+        parameter = inspect.signature(function).parameters.get(name)
+    except (TypeError, ValueError):  # pragma: no cover
+        return False
+    return parameter is not None and parameter.default is inspect.Parameter.empty
+
+
 class InitMethod(MethodDescriptor):
     """
     The default implementation of `__init__` for spec-classes.
@@ -65,7 +76,7 @@ class InitMethod(MethodDescriptor):
                             continue
                         if not instance_attr_spec.init:
                             continue  # not a constructor argument of the parent
-                        if attr in kwargs:
+                        if kwargs.get(attr, MISSING) is not MISSING:
                             parent_kwargs[attr] = kwargs.pop(attr)
                             # Parent constructors do not copy incoming values (see
                             # `copy_required` below), so protect them here.
@@ -85,7 +96,14 @@ class InitMethod(MethodDescriptor):
                             )
                             if instance_default is not MISSING:
                                 parent_kwargs[attr] = instance_default
-                    if parent_metadata.key and parent_metadata.key not in parent_kwargs:
+                    if (
+                        parent_metadata.key
+                        and parent_metadata.key not in parent_kwargs
+                        and _requires_argument(parent.__init__, parent_metadata.key)
+                    ):
+                        # The key is a required parameter of the parent
+                        # constructor; if nothing is to be passed for it (it has
+                        # been re-declared further down), say so explicitly.
                         parent_kwargs[parent_metadata.key] = MISSING
                     parent.__init__(  # pylint: disable=unnecessary-dunder-call
                         self, **parent_kwargs
